@@ -1265,7 +1265,7 @@ fn sgr_face(data: &[u8]) -> FaceModify {
             }
             // bold
             Some(1) => face.bold = Some(true),
-            Some(21) => face.bold = Some(false),
+            Some(22) => face.bold = Some(false),
             // italic
             Some(3) => face.italic = Some(true),
             Some(23) => face.italic = Some(false),
@@ -1277,6 +1277,7 @@ fn sgr_face(data: &[u8]) -> FaceModify {
                 Some(5) => face.underline = Some(UnderlineStyle::Dashed),
                 _ => face.underline = Some(UnderlineStyle::Straight),
             },
+            Some(21) => face.underline = Some(UnderlineStyle::Double),
             Some(24) => face.underline = Some(UnderlineStyle::None),
             // blink
             Some(5) => face.blink = Some(true),
